@@ -665,7 +665,12 @@ func (e *Engine) onlyDirectUses(v ssa.Value, depth int) bool {
 				return false
 			}
 		case *ssa.MakeClosure:
-			// the closure itself must only be called in place (or deferred)
+			// a closure that only reads the variable may escape freely: nobody but this
+			// function writes the variable, so its value as seen here is unaffected
+			if fnc := u.Fn.(*ssa.Function); readsOnly(fnc, u, v, 0) {
+				continue
+			}
+			// otherwise the closure itself must only be called in place (or deferred)
 			for _, cr := range *u.Referrers() {
 				switch c := cr.(type) {
 				case *ssa.DebugRef:
@@ -1641,4 +1646,34 @@ func (x *Exec) assumeFrame(s *State, sorts []Sort) {
 		x.C.Assume(Implies(s.Reach, Forall([]Term{r, o}, Implies(And(App(SBool, "<", IntLit(0), r), App(SBool, "<", r, x.entry.Frontier), Not(inTargets(x.frameTs, r, o))),
 			Eq(Select(Select(s.Heaps[k], r, ObjSort(k)), o, k), Select(Select(x.entry.Heaps[k], r, ObjSort(k)), o, k))))))
 	}
+}
+
+// readsOnly: inside closure fn (created by mc), every use of the free variable
+// bound to v is a load (or a capture by a nested closure that itself only loads).
+func readsOnly(fn *ssa.Function, mc *ssa.MakeClosure, v ssa.Value, depth int) bool {
+	if depth > 3 {
+		return false
+	}
+	for i, b := range mc.Bindings {
+		if b != v {
+			continue
+		}
+		fv := fn.FreeVars[i]
+		for _, r := range *fv.Referrers() {
+			switch u := r.(type) {
+			case *ssa.DebugRef:
+			case *ssa.UnOp:
+				if u.Op != token.MUL {
+					return false
+				}
+			case *ssa.MakeClosure:
+				if !readsOnly(u.Fn.(*ssa.Function), u, fv, depth+1) {
+					return false
+				}
+			default:
+				return false
+			}
+		}
+	}
+	return true
 }
